@@ -24,6 +24,11 @@ def exMax : St :=
   { objs := [{ kind := .hmeta, count := MAXV, alive := true, ext := MAXV }, { kind := .hmeta, count := 2, alive := true, ext := 1 }],
     hnd := [some 1, none, none], ev := [{}, {}] }
 
+/-- example state: a library heap buffer with ten elements, held by its creator -/
+def exBuf : St :=
+  { objs := [{ kind := .rbuf, count := 1, alive := true, ext := 1, elems := [10, 11, 12, 13, 14, 15, 16, 17, 18, 19], cap := 192 }],
+    hnd := [none, none, none], ev := [{}] }
+
 /-! ### the counter -/
 
 /-- **raise**: at 0 and at the largest value it fails (returns 0) WITHOUT changing the counter — it does not
@@ -57,6 +62,7 @@ inductive Op where
   | assignArr (h : Nat) (src : Option Nat)    -- through `mpt_array_clone`
   | extAdd (o : Nat)                          -- external reference taken
   | extUnref (o : Nat)                        -- external reference given back (only if one is held)
+  | detach (h len : Nat)                      -- private copy of the heap buffer behind handle h (`buffer::detach`)
   deriving Repr
 
 /-- one operation; requests the drivers reject (`bad-op`) leave the state as it is -/
@@ -68,6 +74,7 @@ def step (s : St) : Op → St
   | .assignArr h src => if h < s.hnd.length then (s.assignArr h src).1 else s
   | .extAdd o => (s.extAdd o).1
   | .extUnref o => if 1 ≤ (s.obj o).ext then s.extUnref o else s
+  | .detach h len => if h < s.hnd.length then (s.detach h len).1 else s
 
 def run (s : St) : List Op → St
   | [] => s
@@ -107,8 +114,10 @@ theorem step_inv (s : St) (op : Op) (hI : Inv s) : Inv (step s op) := by
   case extAdd o => exact extAdd_inv s o hI
   case extUnref o => split; next hc => exact extUnref_inv s o hI hc
                      next => exact hI
+  case detach h len => split; next hc => exact detach_inv s h len hI hc
+                       next => exact hI
 
-/-- **exact** — for every history of take/copy/drop/assign (both forms)/external addref and unref from a state
+/-- **exact** — for every history of take/copy/drop/assign (both forms)/external addref and unref/detach from a state
     where it holds, after every operation and for every object: the counter equals the number of references
     to the object (external ones plus the handles naming it), it never passes the largest value (no wrap),
     and a destroyed object has no reference left -/
@@ -152,6 +161,19 @@ theorem destroy_at_last (s : St) (o : Nat) (hc : (s.obj o).count ≤ MAXV) (ha :
 -- two objects, three handles: o0 is shared by two handles, dropped twice, destroyed at the second drop
 example : let s := run exTwo [.take 0 0, .copy 1 0, .extUnref 0, .drop 0]
     (s.obj 0).count = 1 ∧ (s.obj 0).alive = true ∧ ((run s [.drop 1]).obj 0).alive = false := by decide
+
+/-- **refused detach** (the private copy of a shared heap buffer cannot take the content): nothing changes —
+    in particular the caller's reference to the shared buffer is still counted, so dropping the OTHER holders
+    cannot destroy the buffer under it (`referenced_alive` applies to the unchanged state) -/
+theorem detach_refused_pure (s : St) (h len : Nat) (hr : (s.detach h len).2 = false) : (s.detach h len).1 = s :=
+  detach_refused s h len hr
+
+-- a library buffer with 10 elements shared by two handles (and the creator): detach to 1 element is refused
+-- and nothing changes; detach to 10 elements hands out a private copy, the shared buffer keeps 2 references
+example : let s := run exBuf [.take 0 0, .copy 1 0]
+    (s.obj 0).count = 3 ∧ s.detach 0 1 = (s, false) ∧
+    ((s.detach 0 10).1.obj 0).count = 2 ∧ (s.detach 0 10).1.hnd = [some 1, some 0, none] ∧
+    ((s.detach 0 10).1.obj 1).count = 1 := by decide
 
 /-! ### assign_balanced -/
 
